@@ -609,8 +609,48 @@ func (c *Check) grow() {
 		}
 	}
 	c.CStats.Grown = c.Grow.Kept
+	// token families (words from the library's own tables)
+	var dict []string
+	if data, err := os.ReadFile(filepath.Join(c.E.Scratch, "ses", "grow0.txt.dict")); err == nil {
+		for _, l := range strings.Split(string(data), "\n") {
+			if d, err := common.UnB64(l); err == nil && d != "" {
+				dict = append(dict, d)
+			}
+		}
+		os.Remove(filepath.Join(c.E.Scratch, "ses", "grow0.txt.dict"))
+	}
+	c.CStats.Family = addFamilies(c.Corpus, dict, c.Seed)
 	c.CStats.Total = c.Corpus.Len()
 	must(c.Corpus.Write(c.CorpusP))
+}
+
+// sweepFamilies: token-family sweep, both API orders.
+func (c *Check) sweepFamilies() {
+	fams := workerlib.Families(c.Corpus)
+	n := len(fams)
+	if n == 0 {
+		return
+	}
+	procs := c.NCPU * 2
+	half := procs / 2
+	per := (n + half - 1) / half
+	parallel(procs, c.NCPU, func(i int) {
+		k := i % half
+		from, to := k*per, (k+1)*per
+		if to > n {
+			to = n
+		}
+		if from >= to {
+			return
+		}
+		// worker index parity (i / half) selects which API goes first
+		ses := &workerlib.Session{Mode: "family", Corpus: c.CorpusP, Seed: c.Seed &^ 1, Worker: i / half, From: from, To: to, NSites: len(c.E.Report.Sites), DistinctPath: c.distinctPath()}
+		pr := runWorker(c.E, ses, 2, 15*time.Minute)
+		if err := procOK(pr); err != nil {
+			harnessFail("family sweep: %v", err)
+		}
+		c.Agg.add("family_sweep", pr)
+	})
 }
 
 // smallVariant builds the knob-shrunk configuration variant and accepts it
